@@ -142,6 +142,7 @@ def run(rep, props, replay=None):
         todo.append((t, "eigenfunctions are orthonormal for the sum over components of the L2 inner products", key, opts, replay_d, td))
         monitors(rep, rng, runq, todo, full, data, comps, grids, expansions, normalize, S, nus, cs, exp_kind, centred, opts, key, replay_d)
     irregular_wellformed(rep, rng)
+    expansion_defaults(rep, rng)
     res = runq.run()
     seen = set()
     for t, what, key, opts, rp, td in todo:
@@ -280,6 +281,45 @@ def monitors(rep, rng, runq, todo, f, data, comps, grids, expansions, normalize,
                     break
     if bad:
         rep.violation("MFPCA: " + "; ".join(sorted(set(bad))), replay_d)
+
+
+def expansion_defaults(rep, rng):
+    """A component's expansion that omits `method` / `n_components` gets the documented defaults ("PSplines", 5) — whatever the
+    expansions of the OTHER components say: the fit equals the fit with the defaults spelled out."""
+    n = 14
+    latent = np.round(rng.normal(size=(n, 3)) * np.array([2.0, 1.0, 0.5]) * 8) / 8
+    comps = [component(rng, n, k, sc, latent)[0] for k, sc in (("uniform", 1.0), ("nonuniform", 3.0), ("shifted", 0.5))]
+    data = fd.multivariate(comps)
+    variants = [
+        ([{"method": "UFPCA", "n_components": 2}, {"method": "UFPCA"}, {}],
+         [{"method": "UFPCA", "n_components": 2}, {"method": "UFPCA", "n_components": 5}, {"method": "PSplines", "n_components": 5}]),
+        ([{"method": "UFPCA", "n_components": 3}, {"n_segments": 4}, {"method": "UFPCA"}],
+         [{"method": "UFPCA", "n_components": 3}, {"method": "PSplines", "n_components": 5, "n_segments": 4},
+          {"method": "UFPCA", "n_components": 5}]),
+    ]
+    for short, explicit in variants:
+        rep.case(("expansion-defaults", repr(short)), nontrivial=True, kind="expansion-defaults", sample={"expansions": short})
+        try:
+            fa = fit_mfpca(data, short, 3, False)
+            fb = fit_mfpca(data, explicit, 3, False)
+            la, lb = np.asarray(fa.eigenvalues, float), np.asarray(fb.eigenvalues, float)
+            def _vals(c):
+                return np.asarray((c.to_grid() if not hasattr(c, "values") else c).values, float)
+            ea = [_vals(c) for c in fa.eigenfunctions.data]
+            eb = [_vals(c) for c in fb.eigenfunctions.data]
+        except ModuleNotFoundError:
+            return
+        except Exception as e:  # noqa: BLE001
+            rep.violation(f"MFPCA.fit with partially specified expansions raised {type(e).__name__}: {e}"[:300],
+                          {"expansions": short, "values": [C.hexf(c.values) for c in comps]})
+            continue
+        same = la.shape == lb.shape and np.allclose(la, lb, rtol=1e-9, atol=1e-12) and all(
+            x.shape == y.shape and np.allclose(np.abs(x), np.abs(y), rtol=1e-7, atol=1e-9) for x, y in zip(ea, eb))
+        if not same:
+            rep.violation("MFPCA: a component whose expansion omits `method` / `n_components` does not get the documented defaults "
+                          "(the fit differs from the fit with the defaults spelled out): a component's expansion depends on the others'",
+                          {"expansions": short, "explicit": explicit, "eigenvalues_short": la.tolist(), "eigenvalues_explicit": lb.tolist(),
+                           "values": [C.hexf(c.values) for c in comps]})
 
 
 def irregular_wellformed(rep, rng):
